@@ -294,6 +294,54 @@ def chunk_coord_objects(p, n):
             p.check(got == tuple(e2[:4]), 'coordgeo-tm:differs-from-geo2grid', 'coord_objects', inp, list(got), list(e2[:4]), call)
 
 
+def chunk_definitions(p, n):
+    """user-defined false origin and first central meridian, without reading them back from the object: two definitions
+    that differ only in the false origin give eastings / southern northings that differ by exactly that (each is the exact
+    image plus its own false origin, rounded to 0.1 mm), and two definitions whose zone numbering is shifted by m zones
+    (first central meridian moved by m zone widths) give the same numbers for zone z and zone z + m.  Zero is a legitimate
+    value for each of the three numbers."""
+    rng = p.rng
+    for _ in range(n):
+        zw = rng.choice([1, 2, 3, 6, 6, 6, 4, 1.5])
+        k0 = rng.choice([0.9996, 0.99994, 1.0, 0.9999, rng.uniform(0.999, 1.0005)])
+        fe_a = rng.choice([0, 0.0, 0, 300000, rng.uniform(0, 2e6)])
+        fn_a = rng.choice([0, 0.0, 0, 5000000, rng.uniform(0, 1e7)])
+        fe_b = rng.choice([500000, 300000, 1000000, rng.uniform(1, 2e6)])
+        fn_b = rng.choice([10000000, 5000000, rng.uniform(1, 1e7)])
+        za = rng.randint(1, 60)
+        m = rng.randint(-(za - 1), 60 - za)
+        icm_a = rng.choice([0, 0.0, 0, -177, -180 + zw / 2, float(rng.randint(-180, 0))])
+        cm = icm_a + (za - 1) * zw
+        if not -180 <= cm < 180:
+            za, m = 1, rng.randint(0, 59)
+            cm = float(icm_a)
+        icm_b = icm_a - m * zw
+        lon = cm + rng.choice([0.0, rng.uniform(-zw / 2, zw / 2), rng.uniform(-3, 3)])
+        lat = rng.choice([rng.uniform(-80, 84), rng.uniform(-80, 0), 0.0])
+        if not -180 <= lon < 180:
+            continue
+        ell = any_ellipsoid(rng)
+        Pa, Pb = K.Projection(fe_a, fn_a, k0, zw, icm_a), K.Projection(fe_b, fn_b, k0, zw, icm_b)
+        inp = {'lat': lat, 'lon': lon, 'ell': enc_ell(ell), 'a': [fe_a, fn_a, k0, zw, icm_a, za], 'b': [fe_b, fn_b, k0, zw, icm_b, za + m]}
+        call = (f'geo2grid({lat!r}, {lon!r}, {za}, {src_ell(ell)}, Projection({fe_a!r}, {fn_a!r}, {k0!r}, {zw!r}, {icm_a!r})) vs '
+                f'geo2grid({lat!r}, {lon!r}, {za + m}, {src_ell(ell)}, Projection({fe_b!r}, {fn_b!r}, {k0!r}, {zw!r}, {icm_b!r}))')
+        p.case('definitions', inp)
+        ok, r = p.guarded('definitions:raises', 'definitions', inp,
+                          lambda: (C.geo2grid(lat, lon, za, ell, Pa), C.geo2grid(lat, lon, za + m, ell, Pb)), call)
+        if not ok:
+            continue
+        ra, rb = r
+        de = abs((ra[2] - fe_a) - (rb[2] - fe_b))
+        dn = abs((ra[3] - (fn_a if lat < 0 else 0)) - (rb[3] - (fn_b if lat < 0 else 0)))
+        p.measure('definitions_dev_m', max(de, dn))
+        # two roundings to 0.1 mm and the float subtraction of a false origin of up to 1e7
+        p.check(de <= 1.1e-4 and dn <= 1.1e-4 and ra[0] == rb[0], 'false-origin-or-first-cm', 'definitions', inp,
+                [list(ra[:4])], [list(rb[:4])], call)
+        if lon == cm:
+            p.check(abs(ra[2] - fe_a) <= 5.1e-5, 'false-origin-or-first-cm', 'definitions', inp, ra[2],
+                    f'easting on the central meridian = false easting {fe_a}', call)
+
+
 def last_double_below_180(p):
     """clause (b) at the largest longitude of the domain [-180, 180): still one of the zones 1..60"""
     lon = math.nextafter(180.0, 0.0)
@@ -317,6 +365,7 @@ def run(p):
         (chunk_hemisphere, 'hemisphere', 16 if t else 1, p.n(900, 8000)),
         (chunk_angles, 'angles', 16 if t else 1, p.n(200, 2500)),
         (chunk_coord_objects, 'coord-objects', 16 if t else 1, p.n(150, 2000)),
+        (chunk_definitions, 'definitions', 16 if t else 1, p.n(600, 6000)),
     ])
 
 
